@@ -188,6 +188,18 @@ def _njob(chunk):
                 if got != ref:
                     bad.append((w, g, text, got[:160], as_property))
                     break
+            if as_property:
+                # a restricted word as a property name with layout on both sides of it
+                for lt in ('\n', '/*c*/', ' //c\n'):
+                    text = ' '.join(toks[:g - 1]) + lt + toks[g - 1] + '\n' + ' '.join(toks[g:])
+                    n += 1
+                    try:
+                        got = c05mod.text_tree(text)
+                    except Exception as e:
+                        got = '%s: %s' % (type(e).__name__, e)
+                    if got != ref:
+                        bad.append((w, g, text, got[:160], as_property))
+                        break
     return n, bad
 
 
